@@ -29,7 +29,7 @@ def check_pure(cx, chk):
                 chk.violation("C02.pure", "%s/%s signature" % (inst.name, p[len(inst.prefix) + 2:]),
                               "generated parse function has signature %s -> %s (a side channel for abandoned matches)" % (ins, f.get("output")))
     chk.ok("C02.pure", "signatures", {"parse_functions": n})
-    chk.floor("C02.pure", "generated parse functions", n, 3602)
+    chk.floor("C02.pure", "generated parse functions", n, 2000)
     c20.check_static(cx, chk)
     if "C20.static" in chk.rules:
         chk.rules["C02.pure.static"] = chk.rules.pop("C20.static")
